@@ -2,7 +2,7 @@
     Property theorems only; every proof is [exact] of a lemma of Proofs/. *)
 From Coq Require Import ZArith List Bool.
 From PV Require Import Model.Base Model.Sched Model.Chan Model.Seq Model.SeqSnap.
-From PV Require Gen.Pure Gen.PureLoops Model.Chan Proofs.PureEq Proofs.PureLoopsEq.
+From PV Require Gen.Pure Gen.PureLoops Gen.PureState Model.Chan Proofs.PureEq Proofs.PureLoopsEq Proofs.PureStateEq.
 From PV Require Import Proofs.SchedInv Proofs.SchedOps Proofs.SeqInv Proofs.DurationSpec Proofs.AlignWitness.
 Import ListNotations.
 Open Scope Z_scope.
@@ -121,3 +121,18 @@ Theorem C02_source_get_duration :
     Gen.PureLoops.gen_get_duration (ch_slots c) (c_rise (ch_cfg c)) (in_eom c) fall = ch_duration c fall.
 Proof. exact PureLoopsEq.get_duration_eq. Qed.
 Print Assumptions C02_source_get_duration.
+
+(** ... and the state-changing core: as functions on the schedule state, the
+    model's [add_delay] and [add_pulse] ARE the monadic functions regenerated
+    from the current source of _Schedule.add_delay / _Schedule.add_pulse. *)
+Theorem C02_source_add_delay :
+  forall (e : env) (d n : Z) (s : sched),
+    Gen.PureState.gen_add_delay e d n s = add_delay e d n s.
+Proof. exact PureStateEq.add_delay_eq. Qed.
+Print Assumptions C02_source_add_delay.
+
+Theorem C02_source_add_pulse :
+  forall (e : env) (p : pulse) (n : Z) (barriers : list Z) (proto : Z) (dp : option drift) (s : sched),
+    Gen.PureState.gen_add_pulse e p n barriers proto dp s = add_pulse e p n barriers proto dp s.
+Proof. exact PureStateEq.add_pulse_eq. Qed.
+Print Assumptions C02_source_add_pulse.
